@@ -358,14 +358,15 @@ func registry() []entry {
 	// the last bits - results must still be the same from call to call
 	add("UDist tied, counts beyond 2^53", func(s *shared) string {
 		var b strings.Builder
+		// (few tie groups keep the tables small: a fraction of a millisecond per call, which the race
+		// detector and the repetitions of the registry multiply by several hundred)
 		for _, d := range []stats.UDist{
 			{N1: 30, N2: 30, T: []int{10, 10, 10, 10, 10, 10}},
-			{N1: 30, N2: 34, T: []int{8, 8, 8, 8, 8, 8, 8, 8}},
-			{N1: 35, N2: 35, T: []int{5, 5, 5, 5, 5, 5, 5, 5, 5, 5, 5, 5, 5, 5}},
-			{N1: 33, N2: 31, T: []int{1, 2, 3, 4, 5, 6, 7, 8, 9, 10, 9}},
+			{N1: 32, N2: 32, T: []int{16, 16, 8, 8, 16}},
+			{N1: 24, N2: 46, T: []int{20, 25, 25}},
 		} {
 			mid := float64(d.N1*d.N2) / 2
-			for _, u := range []float64{mid - 40.5, mid - 3, mid, mid + 17.5} {
+			for _, u := range []float64{mid - 40.5, mid + 17.5} {
 				b.WriteString(fb(d.CDF(u)))
 				b.WriteString(fb(d.PMF(u)))
 			}
